@@ -134,8 +134,8 @@ def r1_spill_table(ck, F, R="C08-R1"):
     if wc:
         spill_ins = [i for i, _, _ in ins if b.dominates(wc[0][0], i)]
         ck.ob(R, "spill-before-insert", len(spill_ins) == 1, "on the spill path write_chunk()? dominates the insert of the new entry (the buffer is emptied first)", b, wc[0][0])
-        brs = [x for x, c, t in calls(b, "Try>::branch") if b.arg_exprs(x)[0].k == "call" and b.arg_exprs(x)[0].x.get("site") == wc[0][0]]
-        ck.ob(R, "spill-error-propagated", len(brs) == 1, "write_chunk's error is propagated with `?`", b, wc[0][0])
+        from .errflow import propagated
+        ck.ob(R, "spill-error-propagated", propagated(F, b, wc[0][0]), "write_chunk's error is propagated", b, wc[0][0])
 
 
 def r2_threshold(ck, F, R="C08-R2"):
@@ -248,8 +248,8 @@ def r4_chunk_cap(ck, F):
             ed = bool_edges(b, value_site=guard[0])
             ok = ed is not None and b.dominates(ed[1], mc[0][0].bb) and not b.dominates(ed[2], mc[0][0].bb) and b.dominates(wc[0][0], guard[0])
             ck.ob(R, "merge-trigger-placement", ok, "the trigger is evaluated after every spill and its true edge reaches merge_chunks", b, guard[0])
-        brs = [x for x, c, t in calls(b, "Try>::branch") if b.arg_exprs(x)[0].k == "call" and b.arg_exprs(x)[0].x.get("site") == mc[0][0]]
-        ck.ob(R, "merge-error-propagated", len(brs) == 1, "merge_chunks' error is propagated with `?`", b, mc[0][0])
+        from .errflow import propagated
+        ck.ob(R, "merge-error-propagated", propagated(F, b, mc[0][0]), "merge_chunks' error is propagated", b, mc[0][0])
     st = field_stores(F, A("sorter_builder"), "max_nb_chunks")
     ck.exact(R, "stores to SorterBuilder.max_nb_chunks", len(st), 1, F.config)
     mn = F.const_int("sorter::MIN_NB_CHUNKS")
